@@ -20,37 +20,45 @@ BASE_ASSUMPTIONS = [
 ]
 
 
-def write_evidence(eng, prop, tier, seed, reports, obs, verdicts, status, known_hits, violations, undecided, bounded, wall):
+def write_evidence(eng, prop, tier, seed, results, skipped, status, known_hits, violations, undecided, bounded, wall):
     os.makedirs(os.path.join(ROOT, "evidence"), exist_ok=True)
     by_solver = Counter()
     solver_seconds = Counter()
-    for v in verdicts:
-        by_solver[v.solver] += 1
-        solver_seconds[v.solver] += v.seconds
-    funcs = {}
-    for r in reports:
-        st = r.status
-        if st == "proved":
-            oids = {o.oid for o in r.obligations}
-            if any(status.get(o) == "refuted" for o in oids):
-                st = "refuted (see known_findings / violations)"
-            elif any(status.get(o) == "unknown" for o in oids):
-                st = "undecided"
-        funcs[r.key] = {"status": st, "cases": r.cases, "paths": r.paths, "infeasible_paths": r.infeasible,
-                        "obligation_instances": len(r.obligations), "seconds": round(r.seconds, 2),
-                        "path_outcomes": r.path_outcomes}
-    trusted = {k: ct.trusted for k, ct in eng.reg.contracts.items() if prop in ct.props and ct.trusted}
-    bounded_c = {k: ct.bounded for k, ct in eng.reg.contracts.items() if prop in ct.props and ct.bounded}
-    inlined = sorted(set().union(*[r.inlined for r in reports])) if reports else []
-    callee = sorted(set().union(*[r.callee_contracts for r in reports])) if reports else []
+    funcs: dict = {}
+    inlined, callee = set(), set()
+    n_inst = 0
     samples = []
     seen = set()
-    for o, v in zip(obs, verdicts):
-        if o.oid in seen or len(samples) >= 6:
-            continue
-        seen.add(o.oid)
-        samples.append({"obligation": o.oid, "kind": o.kind, "path": o.path_sig[-200:], "assumptions": len(o.assumptions),
-                        "goal": str(o.goal)[:300], "verdict": v.verdict, "solver": v.solver, "seconds": round(v.seconds, 4)})
+    for r in results:
+        f = funcs.setdefault(r["key"], {"status": "proved", "cases": 0, "paths": 0, "infeasible_paths": 0,
+                                        "obligation_instances": 0, "seconds": 0.0, "path_outcomes": {}})
+        f["cases"] += 1
+        f["paths"] += r["paths"]
+        f["infeasible_paths"] += r["infeasible"]
+        f["obligation_instances"] += len(r["obligations"])
+        f["seconds"] = round(f["seconds"] + r["seconds"], 2)
+        for k, v in r["path_outcomes"].items():
+            f["path_outcomes"][k] = f["path_outcomes"].get(k, 0) + v
+        inlined |= set(r["inlined"])
+        callee |= set(r["callees"])
+        if r["unsupported"]:
+            f["status"] = "out of reach (unsupported construct)"
+        for o in r["obligations"]:
+            n_inst += 1
+            by_solver[o["solver"]] += 1
+            solver_seconds[o["solver"]] += o["seconds"]
+            stt = status.get(o["oid"])
+            if stt == "refuted" and f["status"] == "proved":
+                f["status"] = "refuted (see known findings / violations)"
+            elif stt == "unknown" and f["status"] == "proved":
+                f["status"] = "undecided"
+            if o["oid"] not in seen and len(samples) < 6:
+                seen.add(o["oid"])
+                samples.append({"obligation": o["oid"], "kind": o["kind"], "path": o["path_sig"][-200:],
+                                "assumptions": o["n_assumptions"], "goal": o["goal"], "verdict": o["verdict"],
+                                "solver": o["solver"], "seconds": round(o["seconds"], 4)})
+    trusted = {k: ct.trusted for k, ct in eng.reg.contracts.items() if prop in ct.props and ct.trusted}
+    bounded_c = {k: ct.bounded for k, ct in eng.reg.contracts.items() if prop in ct.props and ct.bounded}
     kf_oids = {k["oid"] for k in known_hits if not k["oid"].startswith("bounded:")}
     n_obl = len([o for o in status if o not in kf_oids])
     n_dis = sum(1 for o, s in status.items() if s == "proved" and o not in kf_oids)
@@ -63,24 +71,25 @@ def write_evidence(eng, prop, tier, seed, reports, obs, verdicts, status, known_
             "trusted_base": ["z3 5.1.0 (python3-vt)", "cvc5 1.0.3 (/usr/bin/cvc5)", "pyvc executor + NumPy model table",
                              "Lean 4.33 + Mathlib for spec/OptyxSpec.lean"],
             "samples": samples,
-            "obligation_instances": len(obs),
+            "obligation_instances": n_inst,
             "obligations_generated_total": len(status),
             "obligations_refuted_and_listed_in_known_findings": len(kf_oids),
-            "refuted_listed_as_known_findings": sorted({k["oid"] for k in known_hits}),
+            "refuted_listed_as_known_findings": sorted(kf_oids),
             "functions_under_contract": funcs,
             "functions_with_trusted_contract": trusted,
             "functions_bounded_only": bounded_c,
-            "callee_contracts_used": callee,
-            "unfolded_inline": inlined,
+            "callee_contracts_used": sorted(callee),
+            "unfolded_inline": sorted(inlined),
             "functions_in_anchor_files_not_under_contract": anchors.get("not_under_contract", []),
             "by_solver": {k: {"instances": by_solver[k], "seconds": round(solver_seconds[k], 2)} for k in by_solver},
             "bounded": [{k: v for k, v in b.items() if k != "failures"} | {"failures": len(b.get("failures", []))} for b in bounded],
             "undecided": undecided[:50],
             "source_digest": eng.src.digest.hexdigest(),
             "explanation": "`obligations` counts the generated obligations that are not listed known findings (those are reported "
-                           "separately above, with their ids, and are *refuted*, not discharged); obligations are spec-indexed (function / spec case / clause); an obligation is discharged when every "
-                           "path instance of it is unsat-checked by z3 (cvc5 on z3's unknowns; both in the thorough tier). "
-                           "bounded entries are never counted in obligations/discharged.",
+                           "separately above, with their ids, and are *refuted*, not discharged); obligations are spec-indexed "
+                           "(function / spec case / clause); an obligation is discharged when every path instance of it is "
+                           "unsat-checked by z3 (cvc5 on z3's unknowns; both in the thorough tier). bounded entries are never "
+                           "counted in obligations/discharged.",
         },
         "assumptions": BASE_ASSUMPTIONS + list(eng.reg.assumptions)
                        + [f"trusted contract: {k}: {v}" for k, v in trusted.items()]
